@@ -165,6 +165,14 @@ def main():
     gen_obl = list((gen_info or {}).get('obligations', [])) if isinstance(gen_info, dict) else []
     if hasattr(mod, 'extra_obligations'):
         gen_obl += list(mod.extra_obligations(sp, modelmod.LEAN_DIR) or [])
+    # basis.py methods this property's model rests on: re-translated from source on every run and
+    # proved equal to the hand model (harness/translate/basis_translate.py, Lemmas/PyBasisEq.lean)
+    if getattr(mod, 'PYBASIS_METHODS', None):
+        from props import _pybasis
+        try:
+            gen_obl += list(_pybasis.obligations_for(sp, modelmod.LEAN_DIR, list(mod.PYBASIS_METHODS)))
+        except Exception as e:  # fail closed
+            gen_obl.append({'name': 'pybasis-translator', 'ok': False, 'detail': 'translator crashed: %r' % (e,)})
     gen_failed_known = []
     for o in gen_obl:
         if not o.get('ok'):
